@@ -430,6 +430,24 @@ func sources(v ssa.Value) []ssa.Value {
 		case *ssa.ChangeInterface:
 			walk(x.X)
 			return
+		case *ssa.Call:
+			if g := iifeCallee(x); g != nil && g.Signature.Results().Len() == 1 {
+				for _, ret := range returnsOf(g) {
+					walk(ret.Results[0])
+				}
+				return
+			}
+		case *ssa.Extract:
+			if call, ok := x.Tuple.(*ssa.Call); ok {
+				if g := iifeCallee(call); g != nil {
+					for _, ret := range returnsOf(g) {
+						if x.Index < len(ret.Results) {
+							walk(ret.Results[x.Index])
+						}
+					}
+					return
+				}
+			}
 		case *ssa.UnOp:
 			if x.Op == token.MUL {
 				root := cellRoot(x.X)
@@ -682,6 +700,13 @@ func reach(starts []*ssa.BasicBlock, blockedEdge func(from, to *ssa.BasicBlock, 
 // edge from -> from.Succs[idx].
 func edgeDominates(from *ssa.BasicBlock, idx int, target *ssa.BasicBlock) bool {
 	fn := from.Parent()
+	if target.Parent() != fn {
+		lifted, ok := liftBlock(target, fn)
+		if !ok {
+			return false
+		}
+		target = lifted
+	}
 	entry := fn.Blocks[0]
 	if target == entry {
 		return false
@@ -699,6 +724,13 @@ func edgeDominates(from *ssa.BasicBlock, idx int, target *ssa.BasicBlock) bool {
 
 // instrDominates: a is executed before b on every path reaching b.
 func instrDominates(a, b ssa.Instruction) bool {
+	if a.Parent() != b.Parent() {
+		if lb, ok := liftInstr(b, a.Parent()); ok {
+			b = lb
+		} else {
+			return false
+		}
+	}
 	if a.Block() == b.Block() {
 		return instrIndex(a) < instrIndex(b)
 	}
@@ -743,11 +775,13 @@ type cfgEdge struct {
 
 // forwardEx is forward with a set of CFG edges that must not be traversed.
 func forwardEx(starts []startPoint, visit func(in ssa.Instruction) searchAction, blocked map[cfgEdge]bool) (hit ssa.Instruction, reachedExit bool) {
-	seen := map[*ssa.BasicBlock]bool{}
 	type item struct {
 		b *ssa.BasicBlock
 		i int
 	}
+	// seen is keyed by (block, first index) so that a continuation after an IIFE call can re-enter the
+	// caller's block at the instruction after the call
+	seen := map[item]bool{}
 	var stack []item
 	for _, s := range starts {
 		stack = append(stack, item{s.B, s.I})
@@ -755,12 +789,10 @@ func forwardEx(starts []startPoint, visit func(in ssa.Instruction) searchAction,
 	for len(stack) > 0 {
 		it := stack[len(stack)-1]
 		stack = stack[:len(stack)-1]
-		if it.i == 0 {
-			if seen[it.b] {
-				continue
-			}
-			seen[it.b] = true
+		if seen[it] {
+			continue
 		}
+		seen[it] = true
 		stopped := false
 		for k := it.i; k < len(it.b.Instrs); k++ {
 			in := it.b.Instrs[k]
@@ -776,8 +808,22 @@ func forwardEx(starts []startPoint, visit func(in ssa.Instruction) searchAction,
 			if stopped {
 				break
 			}
+			// descend into an immediately-invoked function literal: its body runs here
+			if call, ok := in.(*ssa.Call); ok {
+				if g := iifeCallee(call); g != nil {
+					stack = append(stack, item{g.Blocks[0], 0})
+					stopped = true // the continuation after the call is scheduled from g's returns
+					break
+				}
+			}
 			switch in.(type) {
-			case *ssa.Return, *ssa.Panic:
+			case *ssa.Return:
+				if site := iifeSiteCached(in.Parent()); site != nil {
+					stack = append(stack, item{site.Block(), instrIndex(site) + 1})
+				} else {
+					reachedExit = true
+				}
+			case *ssa.Panic:
 				reachedExit = true
 			}
 		}
@@ -949,6 +995,11 @@ func flipOp(op token.Token) token.Token {
 // guardedByNil reports whether block target is dominated by the edge of some
 // If in fn on which a value satisfying isV is (wantNil) nil / non-nil.
 func guardedByNil(fn *ssa.Function, target *ssa.BasicBlock, isV func(ssa.Value) bool, wantNil bool) bool {
+	for _, f := range enclosingChain(target, fn) {
+		if f != fn && guardedByNil(f, target, isV, wantNil) {
+			return true
+		}
+	}
 	for _, ifi := range ifsIn(fn) {
 		s, ok := nilEdge(ifi, isV)
 		if !ok {
@@ -967,6 +1018,11 @@ func guardedByNil(fn *ssa.Function, target *ssa.BasicBlock, isV func(ssa.Value) 
 // guardedByBool reports whether target is dominated by the edge of some If on
 // which the boolean satisfying isV has value want.
 func guardedByBool(fn *ssa.Function, target *ssa.BasicBlock, isV func(ssa.Value) bool, want bool) bool {
+	for _, f := range enclosingChain(target, fn) {
+		if f != fn && guardedByBool(f, target, isV, want) {
+			return true
+		}
+	}
 	for _, ifi := range ifsIn(fn) {
 		s, ok := boolEdge(ifi, isV)
 		if !ok {
@@ -1027,6 +1083,23 @@ func loopsOf(fn *ssa.Function) []*Loop {
 
 func loopsContaining(fn *ssa.Function, b *ssa.BasicBlock) []*Loop {
 	var out []*Loop
+	if b.Parent() != fn {
+		// loops inside the IIFE chain count as well
+		for _, f := range enclosingChain(b, fn) {
+			if f == fn {
+				break
+			}
+			lb, _ := liftBlock(b, f)
+			if lb != nil {
+				out = append(out, loopsContaining(f, lb)...)
+			}
+		}
+		lifted, ok := liftBlock(b, fn)
+		if !ok {
+			return out
+		}
+		b = lifted
+	}
 	for _, l := range loopsOf(fn) {
 		if l.Blocks[b] {
 			out = append(out, l)
@@ -1340,4 +1413,105 @@ func abstractPaths(fn *ssa.Function, maxPaths int, assume func(v ssa.Value) (boo
 	}
 	walk(fn.Blocks[0], nil, &pathState{Phi: map[*ssa.Phi]ssa.Value{}, Edges: map[cfgEdge]bool{}}, nil, map[*ssa.BasicBlock]bool{})
 	return out, ok
+}
+
+// ---------------------------------------------------------------------------
+// integer comparison semantics
+
+const (
+	negInf = int64(-1 << 62)
+	posInf = int64(1 << 62)
+)
+
+// intEdgeSets: for `ifi` comparing an integer value satisfying isV with a
+// constant, returns for each successor the interval [lo,hi] of values on that
+// edge (intersected with [domMin, +inf)); an edge whose set is not an interval
+// (v != k in the interior) gets ok=false for that edge.
+func intEdgeSets(ifi *ssa.If, isV func(ssa.Value) bool, domMin int64) (lo, hi [2]int64, okEdge [2]bool, ok bool) {
+	op, k, succTrue, isCmp := cmpConstEdge(ifi, isV)
+	if !isCmp {
+		return
+	}
+	set := func(op token.Token, k int64) (int64, int64, bool) {
+		switch op {
+		case token.LSS:
+			return negInf, k - 1, true
+		case token.LEQ:
+			return negInf, k, true
+		case token.GTR:
+			return k + 1, posInf, true
+		case token.GEQ:
+			return k, posInf, true
+		case token.EQL:
+			return k, k, true
+		case token.NEQ:
+			// only an interval when k is at the domain boundary
+			if k == domMin {
+				return k + 1, posInf, true
+			}
+			if k < domMin {
+				return negInf, posInf, true
+			}
+			return 0, 0, false
+		}
+		return 0, 0, false
+	}
+	negate := map[token.Token]token.Token{token.LSS: token.GEQ, token.LEQ: token.GTR, token.GTR: token.LEQ, token.GEQ: token.LSS, token.EQL: token.NEQ, token.NEQ: token.EQL}
+	tl, th, tok := set(op, k)
+	fl, fh, fok := set(negate[op], k)
+	clamp := func(l, h int64) (int64, int64) {
+		if l < domMin {
+			l = domMin
+		}
+		return l, h
+	}
+	tl, th = clamp(tl, th)
+	fl, fh = clamp(fl, fh)
+	lo[succTrue], hi[succTrue], okEdge[succTrue] = tl, th, tok
+	lo[1-succTrue], hi[1-succTrue], okEdge[1-succTrue] = fl, fh, fok
+	return lo, hi, okEdge, true
+}
+
+// intGuard: is target dominated by an edge on which the integer value
+// satisfying isV (known to be >= domMin) lies within [wantLo, wantHi]?
+func intGuard(fn *ssa.Function, target *ssa.BasicBlock, isV func(ssa.Value) bool, domMin, wantLo, wantHi int64) bool {
+	for _, f := range enclosingChain(target, fn) {
+		for _, ifi := range ifsIn(f) {
+			lo, hi, okE, ok := intEdgeSets(ifi, isV, domMin)
+			if !ok {
+				continue
+			}
+			for e := 0; e < 2; e++ {
+				if okE[e] && lo[e] >= wantLo && hi[e] <= wantHi && lo[e] <= hi[e] && edgeDominates(ifi.Block(), e, target) {
+					return true
+				}
+			}
+		}
+	}
+	return false
+}
+
+// intEdge: the successor of ifi on which the value lies within [wantLo,wantHi] (ok=false if none).
+func intEdge(ifi *ssa.If, isV func(ssa.Value) bool, domMin, wantLo, wantHi int64) (int, bool) {
+	lo, hi, okE, ok := intEdgeSets(ifi, isV, domMin)
+	if !ok {
+		return 0, false
+	}
+	for e := 0; e < 2; e++ {
+		if okE[e] && lo[e] >= wantLo && hi[e] <= wantHi && lo[e] <= hi[e] {
+			return e, true
+		}
+	}
+	return 0, false
+}
+
+func isLenCallOf(pred func(ssa.Value) bool) func(ssa.Value) bool {
+	return func(v ssa.Value) bool {
+		call, ok := v.(*ssa.Call)
+		if !ok {
+			return false
+		}
+		b, ok := call.Call.Value.(*ssa.Builtin)
+		return ok && b.Name() == "len" && pred(call.Call.Args[0])
+	}
 }
